@@ -71,7 +71,7 @@ CLAIMED = {
     ),
     "C14": (
         "The shared mutable state written at call time is found by a write monitor (attributes of objects that pre-exist the call). For every registered German method object one caller with a symbolic account runs against an adversary: before each of its accesses to a shared location another real thread overwrites that location with an arbitrary value 0..10; the solver shows the caller's outcome equals its solo outcome on every path. For methods with few paths two real logical threads with two symbolic accounts run under a baton scheduler whose switch points are the shared accesses and whose choices are engine forks (all schedules). The same adversary harness runs through IBAN(..., validate_bban=True). Non-German algorithm objects must write nothing at call time.",
-        "2 logical threads (3 in the thorough tier for two methods); switch points = reads/writes of shared locations (thread-local steps commute); CPython-internal atomicity, third-party locks and registries (read-only: C15) are outside.",
+        "2 logical scheduler threads (the adversary stands for any number of interfering threads); switch points = reads/writes of shared locations (thread-local steps commute); CPython-internal atomicity, third-party locks and registries (read-only: C15) are outside.",
         "3 C14",
     ),
     "C15": (
